@@ -186,7 +186,7 @@ def work_fixed_presets(bins):
 
 def run(ctx):
     quick = ctx.tier == "quick"
-    per = 4000 if quick else 30000
+    per = 4000 if quick else 120000
     jobs = [(ctx.bins, "%s/%d/obj/%d" % (ctx.prop, ctx.seed, i), per, i % 4 != 0) for i in range(32)]
     allbad = []
     for r in core.pmap(work_objects, jobs):
@@ -196,12 +196,12 @@ def run(ctx):
         allbad += r["bad"]
         for s in r["samples"][:1]:
             ctx.sample(s, cap=5)
-    bjobs = [(ctx.bins, "%s/%d/bin/%d" % (ctx.prop, ctx.seed, i), 80 if quick else 600) for i in range(16)]
+    bjobs = [(ctx.bins, "%s/%d/bin/%d" % (ctx.prop, ctx.seed, i), 80 if quick else 2400) for i in range(16)]
     for r in core.pmap(work_binary, bjobs):
         ctx.evaluations += r["n"]
         ctx.count("binary_stdin_renderings", r["n"])
         allbad += r["bad"]
-    tjobs = [(ctx.bins, "%s/%d/tier/%d" % (ctx.prop, ctx.seed, i), 250 if quick else 2500) for i in range(16)]
+    tjobs = [(ctx.bins, "%s/%d/tier/%d" % (ctx.prop, ctx.seed, i), 250 if quick else 10000) for i in range(16)]
     for r in core.pmap(work_tier, tjobs):
         ctx.evaluations += r["n"]
         ctx.count("tier_decisions", r["n"])
